@@ -62,3 +62,71 @@ def run(chk, F, tier):
                       sample={"rule": "R19", "site": bid, "verdict": "overlap emptiness is tested"})
     chk.floor("range predicates on the suppression path", n_pred, 1)
     chk.explanation = "Call-graph reachability from the suppression test, then use-classification of every TextRange::intersect result."
+
+    # ---- R19b: the suppression decision is a function of (code, range): no lookup keyed without the code ----------------
+    import cfgutil
+    chk.rule("R19b", "on the suppression path no map owned by the diagnostic context is consulted under a key that lacks the diagnostic "
+                     "code (a memo keyed by range alone lets the first code reported at a range decide for every other code)")
+    nmaps = 0
+    for bid in sorted(reach):
+        b = F.bodies[bid]
+        for bb, c in b.calls():
+            nm = name(c)
+            if not (("HashMap" in nm or "BTreeMap" in nm or "HashSet" in nm) and nm.endswith(("::get", "::get_mut", "::contains_key", "::contains", "::entry", "::insert"))):
+                continue
+            if not c["a"]:
+                continue
+            recv = b.ty_str_op(c["a"][0])
+            if "TextRange" not in recv and "TextSize" not in recv:
+                continue      # only maps keyed by positions matter for scope matching
+            nmaps += 1
+            chk.check("DiagnosticCode" in recv.split(",")[0] or "DiagnosticCode" in recv.split(">")[0], "R19b", "poskeyed-map@%s" % bid,
+                      "%s consults `%s` while deciding whether a diagnostic is suppressed: the key has a position but no diagnostic code, so "
+                      "the answer computed for one code is reused for another code at the same range" % (bid.split("::")[-1], recv[:120]),
+                      b.loc(c["l"]), sample={"rule": "R19b", "site": bid, "verdict": "key includes the code"})
+    chk.unit("position-keyed map lookups on the suppression path", nmaps)
+
+    # ---- R19c: "suppress every code" only when the comment has no code list ---------------------------------------------
+    chk.rule("R19c", "DiagnosticActionKind::DisableAll is built only on the None edge of LuaDocTagDiagnostic::get_code_list() "
+                     "(a list that names only unknown codes must not widen to every code)")
+    nall = 0
+    for b in F.bodies.values():
+        if b.crate != CA or "::test" in b.id or "/test" in b.file:
+            continue
+        sites = []
+        for bi, blk in enumerate(b.blocks):
+            if blk[0]:
+                continue
+            for st in blk[1]:
+                if st[0] == "a" and st[2][0] == "agg" and st[2][1] == "adt" and (st[2][2] or "").endswith("DiagnosticActionKind") and st[2][3] == "DisableAll":
+                    sites.append((bi, st[3] if len(st) > 3 else None))
+        if not sites:
+            continue
+        succ = b.succ_map()
+        idom = cfgutil.dominators(succ, 0)
+        none_edges = []
+        for bb, c in b.calls():
+            if not name(c).endswith("LuaDocTagDiagnostic::get_code_list") or len(c["d"]) != 1:
+                continue
+            res = {c["d"][0]}
+            for bi in sorted(cfgutil.reachable(succ, c["t"]) | {c["t"]}):
+                blk = b.blocks[bi]
+                for st in blk[1]:
+                    if st[0] == "a" and len(st[1]) == 1 and st[2][0] == "use" and st[2][1][0] in ("c", "m") and len(st[2][1][1]) == 1 and st[2][1][1][0] in res:
+                        res.add(st[1][0])
+                t = blk[2]
+                if t[0] == "sw" and t[1][0] in ("c", "m"):
+                    for st in blk[1]:
+                        if st[0] == "a" and st[1] == [t[1][1][0]] and st[2][0] == "disc" and st[2][1][0] in res:
+                            tg = [tb for v, tb in t[2] if v == 0]
+                            none_edges.append(tg[0] if tg else t[3])
+        for bi, line in sites:
+            nall += 1
+            key = "disable-all@%s#%d" % (b.id.split("::")[-1], sites.index((bi, line)) + 1)
+            ok = any(cfgutil.dominates(idom, ne, bi) for ne in none_edges)
+            chk.check(ok, "R19c", key,
+                      "%s builds DiagnosticActionKind::DisableAll on a path that is not the `get_code_list() == None` branch: a comment that "
+                      "does carry a code list (for instance only misspelt or foreign code names) would suppress every code in its scope"
+                      % b.id.split("::")[-1], b.loc(line),
+                      sample={"rule": "R19c", "site": key, "verdict": "only under get_code_list() == None"})
+    chk.floor("DisableAll construction sites", nall, 1)
